@@ -307,6 +307,13 @@ class BaseDiscretizer(BaseEstimator, TransformerMixin):
             if self.copy:
                 x_copy = X.copy()
 
+            # checking for raw input columns (before they are casted for multiclass targets)
+            missing_columns = [feature for feature in self.features_casting if feature not in x_copy]
+            assert len(missing_columns) == 0, (
+                f" - [Discretizer] Requested discretization of {str(missing_columns)} but those"
+                " columns are missing from provided X. Please check your inputs! "
+            )
+
             # casting features for multiclass targets
             x_copy = self._cast_features(x_copy)
 
